@@ -1,6 +1,6 @@
 """C09 - Reliable messaging delivers each message at most once and reports the truth (error-discipline clauses only)."""
 from common import (mentions, closure_in, async_body, closure_arg_sites, ok_return_bbs, call_bbs, named_local, src_calls,
-                    src_fields, src_consts, bodies_of, result_used)
+                    src_fields, src_consts, bodies_of, result_used, field_bool_edges)
 from facts import AnchorLost, op_place
 import prims
 
@@ -93,15 +93,48 @@ def check(R):
             s = prims.sources(pr, cmpz[0][3]) | prims.sources(pr, cmpz[0][4])
             R.expect('P10', pr.fn, 'the acknowledged counter compared is the received header\'s', any(c.endswith('ProtoHdr::get_ack') for c in src_calls(s)) or any(pr.local_name(l) == 'ack_msg_ctr' for l in range(len(pr.locals))), 'rx_proto.get_ack()', f'{sorted(map(str, s))[:5]}')
         R.writers_confined('P1', fld, {RM + '::pre_send', RM + '::post_recv', RM + '::new', '<' + RM + ' as core::default::Default>::default'}, min_sites=2)
+        # "at most once": whether a message still has to be re-sent is decided with the TX buffer IN HAND.  Waiting for the (single) TX
+        # buffer can take a while; an acknowledgement that arrives meanwhile clears the retransmission entry - a sender that made up its
+        # mind before the wait would then build the message anew, with a fresh counter, and the peer's application gets it twice
+        for owner, adt in (('transport::exchange::Sender', 'transport::exchange::SenderTx'), ('transport::exchange::OwnedSender', 'transport::exchange::OwnedSenderTx')):
+            co = async_body(R, owner + '::tx')
+            ini = co.calls('transport::exchange::ExchangeId::init_send')
+            R.floor(f'init_send in {owner.split("::")[-1]}::tx', len(ini), 1)
+            got = set()
+            for t in ini:
+                got |= prims.track_result(F, co, t).success
+            builds = [i for i, j, st in co.stmts() if st[1].get('op') == 'agg' and st[1].get('adt') == adt]
+            R.floor(f'{adt.split("::")[-1]} built in {owner.split("::")[-1]}::tx', len(builds), 1)
+            still = set()
+            for t in co.calls('transport::exchange::ExchangeId::pending_retrans'):
+                still |= prims.track_result(F, co, t, inner=1).success
+            te, fe = field_bool_edges(co, 'initial:' + owner)
+            for (frm, to) in sorted(got):
+                R.cut_from('P2', co, to, 'hand the TX buffer to the message builder (a (re)transmission follows)', builds,
+                           'this is the first transmission, or - checked after the buffer was obtained - the retransmission is still pending', still | te)
 
     # ---- c --------------------------------------------------------------------
     with R.clause('c'):
         pass
         hr = 'transport::TransportRunner::handle_rx_packet'
         co = async_body(R, hr)
-        ack = closure_in(R, hr, ['ProtoHdr::set_ack', 'TransportRunner::write_packet', 'Sessions::get_for_rx'])
+        ack = closure_in(R, hr, ['ProtoHdr::set_ack', 'TransportRunner::write_packet'])
         sites = closure_arg_sites(co, ack.fn)
         R.floor('with_state(duplicate ack closure)', len(sites), 1)
+        # "every received duplicate is acknowledged again" - whatever became of the exchange it belonged to (the receiving application may
+        # have closed it long ago: the first ACK was lost, that is why the duplicate comes).  The re-ACK is sent on the SESSION: the
+        # session handed to write_packet is the one get_for_rx found, not the outcome of an exchange lookup, and write_packet is reached
+        # on every path through the closure
+        wps = ack.calls('transport::TransportRunner::write_packet')
+        sess_src = src_calls(prims.sources(ack, wps[0].d['a'][2], through={'core::option::Option::unwrap', 'core::option::Option::Some'}))
+        by_exch = sorted(c for c in sess_src if 'exch' in c.split('::')[-1])
+        R.expect('P10', ack.fn, 'the duplicate is re-acknowledged on its session, found by session alone (no exchange has to exist any more)',
+                 'transport::session::Sessions::get_for_rx' in sess_src and not by_exch, 'session <= Sessions::get_for_rx',
+                 f'the session for the re-ACK comes from {by_exch or sorted(sess_src)[:4]}: once the application has closed the exchange the duplicate is no longer acknowledged and the '
+                 'sender retransmits into silence until TxTimeout', ack.where(wps[0].bb))
+        skip = prims.precedes(ack, [t.bb for t in wps], ok_return_bbs(ack) or ack.ret_blocks())
+        R.expect('P3', ack.fn, 'the re-acknowledgement is written on every path through the closure', not skip, 'write_packet precedes every Ok return',
+                 f'an Ok return at {[ack.where(x) for x in skip][:2]} is reachable without write_packet: that duplicate is dropped silently')
         sa = ack.calls('transport::proto_hdr::ProtoHdr::set_ack')[0]
         s = prims.sources(ack, sa.d['a'][1])
         R.expect('P10', ack.fn, 'the re-acknowledgement carries the duplicate\'s own counter', mentions(s, 'ctr') and mentions(s, 'plain'), 'set_ack(Some(packet.header.plain.ctr))', f'{sorted(map(str, s))[:6]}', ack.where(sa.bb))
